@@ -9,14 +9,14 @@ from . import core, env, runner
 TIERS = {
     # wall_cap = time budget of the simulated-run phase: when it is used up the check stops starting new
     # batches and reports how many runs were executed (that is not an error)
-    'C14': {'quick': dict(nruns=6000, wall_cap=700), 'thorough': dict(nruns=150000, wall_cap=2700)},
-    'C04': {'quick': dict(nruns=3000, wall_cap=700), 'thorough': dict(nruns=250000, wall_cap=2700)},
-    'C05': {'quick': dict(nruns=2400, wall_cap=700), 'thorough': dict(nruns=200000, wall_cap=2700)},
-    'C03': {'quick': dict(nruns=1200, wall_cap=600), 'thorough': dict(nruns=100000, wall_cap=2500)},
-    'C11': {'quick': dict(nruns=1600, wall_cap=700), 'thorough': dict(nruns=150000, wall_cap=2700)},
-    'C13': {'quick': dict(nruns=1500, wall_cap=900), 'thorough': dict(nruns=60000, wall_cap=2600)},
-    'C20': {'quick': dict(nruns=5000, wall_cap=600), 'thorough': dict(nruns=120000, wall_cap=1500)},
-    'C08': {'quick': dict(nruns=3000, wall_cap=700), 'thorough': dict(nruns=200000, wall_cap=2500)},
+    'C14': {'quick': dict(nruns=12000, wall_cap=300), 'thorough': dict(nruns=150000, wall_cap=2700)},
+    'C04': {'quick': dict(nruns=8000, wall_cap=300), 'thorough': dict(nruns=250000, wall_cap=2700)},
+    'C05': {'quick': dict(nruns=8000, wall_cap=300), 'thorough': dict(nruns=200000, wall_cap=2700)},
+    'C03': {'quick': dict(nruns=4000, wall_cap=300), 'thorough': dict(nruns=100000, wall_cap=2500)},
+    'C11': {'quick': dict(nruns=6000, wall_cap=300), 'thorough': dict(nruns=150000, wall_cap=2700)},
+    'C13': {'quick': dict(nruns=3000, wall_cap=400), 'thorough': dict(nruns=60000, wall_cap=2600)},
+    'C20': {'quick': dict(nruns=8000, wall_cap=300), 'thorough': dict(nruns=120000, wall_cap=1500)},
+    'C08': {'quick': dict(nruns=5000, wall_cap=300), 'thorough': dict(nruns=200000, wall_cap=2500)},
 }
 DEFAULT_SEED = {'quick': 20260923, 'thorough': 977}
 
